@@ -113,7 +113,17 @@ func jsonIsEmpty(t types.Type, v value) bool {
 			return x == 0
 		case float32:
 			return x == 0
-		case *Sym, lazyDec:
+		case *Sym:
+			// a symbolic number or bool is empty when it is zero / false: decide it (found by the
+			// self-test: omitempty kept a symbolic 0)
+			if x.K == types.Bool {
+				return !cx.Branch(x.T)
+			}
+			if x.K == types.Float64 || x.K == types.Float32 {
+				return cx.Branch(sym.Eq(x.T, sym.RealF(0)))
+			}
+			return cx.Branch(sym.Eq(x.T, sym.Int(0)))
+		case lazyDec:
 			return false
 		}
 		if u.Info()&types.IsInteger != 0 {
@@ -375,7 +385,14 @@ func jsonIndent(src []value, prefix, indent string) []value {
 			continue
 		}
 		if !conc {
-			out = append(out, bv) // digits of a symbolic number
+			// digits of a symbolic number: a value like any other (found by the self-test: the first
+			// element of an array was not moved to its own line)
+			if needIndent {
+				needIndent = false
+				depth++
+				nl()
+			}
+			out = append(out, bv)
 			continue
 		}
 		if b == ' ' || b == '\t' || b == '\r' || b == '\n' {
